@@ -39,11 +39,20 @@ def _is_sequence_name(func: ast.FunctionDef, name: str) -> bool:
     return False
 
 
-def impure_writes(func: ast.FunctionDef, params: set[str] | None = None) -> tuple[list[tuple[ast.AST, str, str]], int]:
-    """(node, parameter, what) for every in-place write that may reach a parameter's storage; number of in-place sites examined."""
+MAYBE_SELF_METHODS = {"tocsr", "tocsc", "tocoo", "asformat", "tolil", "todia", "tobsr", "asfptype"}
+OPERAND_RESULT_METHODS = {"jac", "evaluate", "func", "_jac", "_func"}
+
+
+def impure_writes(func: ast.FunctionDef, params: set[str] | None = None, *, track_state: bool = False) -> tuple[list[tuple[ast.AST, str, str]], int]:
+    """(node, parameter, what) for every in-place write that may reach a parameter's storage; number of in-place sites examined.
+
+    With ``track_state`` the storage of ``self.<attr>`` and of the arrays returned by an operand's
+    ``evaluate/func/jac`` (which may be arrays the operand keeps, e.g. the coefficients of a linear
+    function) are alias sources as well; sparse ``to<format>()`` conversions may return their receiver.
+    """
     if params is None:
         params = {a.arg for a in [*func.args.posonlyargs, *func.args.args, *func.args.kwonlyargs] if a.arg not in ("self", "cls") and _is_array_param(a)}
-    if not params:
+    if not params and not track_state:
         return [], 0
     cfg = cfg_of(func)
 
@@ -53,6 +62,8 @@ def impure_writes(func: ast.FunctionDef, params: set[str] | None = None) -> tupl
         if isinstance(e, ast.Attribute):
             if e.attr in VIEW_ATTRS:
                 return ev(e.value, env)
+            if track_state and isinstance(e.value, ast.Name) and e.value.id == "self":
+                return frozenset({f"self.{e.attr}"})
             return FRESH
         if isinstance(e, ast.Subscript):
             base = ev(e.value, env)
@@ -74,6 +85,10 @@ def impure_writes(func: ast.FunctionDef, params: set[str] | None = None) -> tupl
             name = last_attr(e)
             if isinstance(e.func, ast.Attribute) and name in VIEW_METHODS:
                 return ev(e.func.value, env)
+            if track_state and isinstance(e.func, ast.Attribute) and name in MAYBE_SELF_METHODS:
+                return ev(e.func.value, env)
+            if track_state and isinstance(e.func, ast.Attribute) and name in OPERAND_RESULT_METHODS and not (isinstance(e.func.value, ast.Name) and e.func.value.id in ("self", "super")):
+                return frozenset({f"result of {unparse(e.func)}"})
             if isinstance(e.func, ast.Attribute) and name == "astype":
                 cp = kwarg(e, "copy")
                 if isinstance(cp, ast.Constant) and cp.value is False:
